@@ -266,6 +266,11 @@ def gen_model(rng, profile="contact", nbody=None, integrator=None, sensors=True,
             disable.append(flag)
     if rng.random() < 0.06:
         disable += [f for f in ("spring", "damper") if f not in disable]
+    if integ == "RK4" and (("spring" in disable) != ("damper" in disable)):
+        # NOT GENERATED: RK4 with exactly one of spring/damper disabled. The passive-forces finding is confirmed by feeding MJX the
+        # missing force as a constant qfrc_applied, which is exact for one forward evaluation only, not for RK4's four stages
+        disable = [f for f in disable if f not in ("spring", "damper")]
+        tags.append("not_generated:rk4+spring-xor-damper-disabled")
     if not P["contact"] and "contact" not in disable:
         disable.append("contact")
     tags += ["dsbl:" + f for f in disable if f != "contact" or P["contact"]]
@@ -635,7 +640,7 @@ def gen_model(rng, profile="contact", nbody=None, integrator=None, sensors=True,
                 if xor_sd and dyn != "none" and (w("actearly") or rng.random() < 0.3):
                     tags.append("not_generated:actearly+spring-xor-damper-disabled")   # untriaged combination (audit B6 follow-up)
                     pending.discard("actearly")
-                elif dyn != "none" and (rng.random() < 0.3 or take("actearly")):
+                elif not xor_sd and dyn != "none" and (rng.random() < 0.3 or take("actearly")):
                     extra += ' actearly="true"'
                     tags.append("actearly")
                 A.append("<general %s %s/>" % (common, extra))
